@@ -320,9 +320,14 @@ class Body:
 
 
 class Facts:
-    def __init__(self, path):
+    def __init__(self, path, normalise=True):
         with open(path) as fh:
-            j = json.load(fh)
+            text = fh.read()
+        self.renames = {}
+        if normalise:
+            from .anchors import normalise as _norm
+            text, self.renames = _norm(text)
+        j = json.loads(text)
         self.raw = j
         self.nonce = j["nonce"]
         self.bodies = []
